@@ -6,12 +6,12 @@ from lib.common import Broken, Violation, verdict, save_replay
 
 PROPS = {
     "C38": {
-        "text": "ConsoleAuth.tla models the console's authManager (session map token -> expiry, login, logout, requireAuth around the protected routes) and its per-address sliding-window login limiter on an integer clock; TLC checks the two C38 clauses exhaustively, both for the abstract scaled constants of the design (ttl 3, window 2, limit 2) and for the code's own constants (ttl 12 h, window 60 s, limit 20, tick sizes 30 s / 4 h, login bursts). TLC-generated histories (simulation + counterexamples of three named wrong designs) are replayed against the real mux built by NewMux with httptest recorders in a testing/synctest bubble (virtual time), every protected route being requested for every cookie; TLC validates the recorded exchanges: the C38 predicates over the observed histories (layer O) and step-by-step conformance incl. the session map and limiter hit lists (layer C).",
+        "text": "ConsoleAuth.tla models the console's authManager (session map token -> expiry, login, logout, requireAuth around the protected routes) and its per-address sliding-window login limiter on an integer clock; TLC checks the two C38 clauses exhaustively, both for the abstract scaled constants of the design (ttl 3, window 2, limit 2) and for the code's own constants (ttl 12 h, window 60 s, limit 20, tick sizes 30 s / 4 h, login bursts). TLC-generated histories (simulation + counterexamples of four named wrong designs) are replayed against the real mux built by NewMux with httptest recorders in a testing/synctest bubble (virtual time), every protected route being requested for every cookie list (none, forged, an issued token, two same-named session cookies); TLC validates the recorded exchanges: the C38 predicates over the observed histories (layer O) and step-by-step conformance incl. the session map and limiter hit lists (layer C).",
         "note": "Trusted: TLC, testing/synctest virtual time, the classification of a response as rejected (401/403 or requireAuth's 503 'auth disabled'), the hand-written list of the 12 routes NewMux wraps in requireAuth. The property is read literally: an endpoint answers only live-session requests (served => live) and at most `limit` attempts per address pass the limiter in any half-open window (t-W, t]; the converse (a live session is served) is checked by the conformance layer only. The limiter/TTL constants cannot be configured through NewMux, so the real constants are used and the time axis is sampled with 30 s and 4 h ticks.",
         "technique": "TLA+ model (ConsoleAuth.tla) + TLC exhaustive check + replay of TLC behaviours into the real console mux under virtual time + TLC trace validation (observation and conformance layers)",
     }
 }
-DEVIATIONS = {"NoExpiry": "C38_SessionRequired", "LogoutKeeps": "C38_SessionRequired", "LimiterPerWindowStart": "C38_RateLimit"}
+DEVIATIONS = {"NoExpiry": "C38_SessionRequired", "LogoutKeeps": "C38_SessionRequired", "LimiterPerWindowStart": "C38_RateLimit", "AnyCookieValid": "C38_SessionRequired"}
 SIM_LEN = 24  # MaxOps of Sim_ConsoleAuth.cfg
 TRACE_CFG = """CONSTANTS
  Addrs = {"a1","a2"}
@@ -55,23 +55,36 @@ def split(rows):
     return runs
 
 
-def classify(run, upto):
-    """Why the cookie of request line `upto` (index in run) is not live, from the recorded history (diagnostics / signature only)."""
+def tok_state(run, upto, c):
     ev = run[upto]
-    c = ev.get("cookie")
-    if ev["ev"] != "Request":
-        return ev["ev"].lower()
-    if c in ("none", "forged"):
-        return c
     ttl = run[0]["ttl"]
     issued = [r for r in run[:upto] if r["ev"] == "Login" and r.get("token") == c]
     if not issued or not issued[0]["good"] or issued[0]["status"] != 200:
         return "token_not_from_valid_login"
-    if any(r["ev"] == "Logout" and r.get("cookie") == c for r in run[:upto]):
+    if any(r["ev"] == "Logout" and r.get("cookies") == [c] for r in run[:upto]):
         return "logged_out"
     if ev["now"] > issued[0]["now"] + ttl:
         return "expired"
     return "live"
+
+
+def classify(run, upto):
+    """Class of the cookie list of request line `upto` (index in run), from the recorded history (diagnostics / signature only)."""
+    ev = run[upto]
+    if ev["ev"] != "Request":
+        return ev["ev"].lower()
+    cs = ev.get("cookies") or []
+    if not cs:
+        return "none"
+    if cs == ["forged"]:
+        return "forged"
+    if len(cs) == 1:
+        return tok_state(run, upto, cs[0])
+    if any(r["ev"] == "Logout" and r.get("cookies") == cs for r in run[:upto]):
+        return "multi_cookie_list_logged_out"
+    if any(c != "forged" and tok_state(run, upto, c) == "live" for c in cs):
+        return "multi_with_live_token"
+    return "multi_without_live_token"
 
 
 def check(ctx, prop):
@@ -122,7 +135,7 @@ def check(ctx, prop):
         first.add((idx, sig))
         path = save_replay(prop, "sched-%s.json" % re.sub(r"\W", "_", sig), {"schedule": scheds[idx], "label": labels[idx], "trace": runs[idx], "line": ev})
         if inv == "C38_SessionRequired":
-            what = "protected routes %s answered a request at t=%ds whose cookie %s is not a live session (%s)" % (ev.get("servedRoutes"), ev["now"], ev.get("cookie"), why)
+            what = "protected routes %s answered a request at t=%ds whose session cookies %s are not a live session (%s)" % (ev.get("servedRoutes"), ev["now"], ev.get("cookies"), why)
         else:
             what = "address %s got more than %d login attempts past the limiter within one %d s window ending at t=%ds" % (ev.get("addr"), runs[idx][0]["limit"], runs[idx][0]["window"], ev["now"])
         violations.append(Violation(prop, sig, "%s false on the real console mux: %s [schedule %s, replay %s]" % (inv, what, labels[idx], path), {"schedule": scheds[idx], "event": ev}))
@@ -153,7 +166,7 @@ def check(ctx, prop):
                 k = classify(run, i)
                 kinds[k] = kinds.get(k, 0) + 1
     nontrivial = sum(1 for run in runs if any(r["ev"] == "Request" and r["served"] for r in run)
-                     and any(r["ev"] == "Request" and r["cookie"].startswith("t") and not r["served"] for r in run))
+                     and any(r["ev"] == "Request" and len(r["cookies"]) == 1 and r["cookies"][0].startswith("t") and not r["served"] for r in run))
     mc = mcs[-1][1]
     cov = {
         "states": sum(m.distinct for _, m in mcs), "transitions": sum(m.generated for _, m in mcs), "depth": max(m.depth for _, m in mcs), "exhaustive": True,
@@ -169,11 +182,12 @@ def check(ctx, prop):
     }
     if not quick:
         cov["action_coverage"] = {k: v[1] for k, v in mc.action_coverage().items()}
-    if not violations and not drift and (not kinds.get("live") or not kinds.get("expired") or not kinds.get("logged_out") or not cov["login_attempts_rate_limited"]):
+    if not violations and not drift and (not kinds.get("live") or not kinds.get("expired") or not kinds.get("logged_out") or not kinds.get("multi_cookie_list_logged_out") or not kinds.get("multi_with_live_token") or not cov["login_attempts_rate_limited"]):
         raise Broken("vacuous run: request classes %s, rate-limited attempts %d" % (kinds, cov["login_attempts_rate_limited"]))
     return verdict(ctx, violations, level, cov, [
         "a response counts as rejected iff its status is 401/403 or it is requireAuth's 503 'ui auth disabled'; anything else means the wrapped handler answered",
         "the protected routes are the 12 routes server.go wraps in requireAuth (LFS handlers enabled); streaming endpoints are called with an already-cancelled request context",
+        "a logout presenting exactly one session cookie logs that token out; when a client presents several same-named session cookies it is unspecified which one is 'the' session, so only this is demanded: a request carrying the identical cookie list is not answered after that list was presented to a logout (and a request is answered only if at least one carried token is live)",
         "window convention (DESIGN §4 C38): half-open (t-W, t]; a login attempt counts as admitted iff it reached the credential check (status 200/400/401)",
         "time is virtual (testing/synctest); the time axis is sampled with ticks of 30 s and 4 h, which hit the window and TTL boundaries exactly",
         "every handler is a single pass through independent critical sections, so sequential histories cover all interleavings of complete exchanges",
@@ -182,11 +196,11 @@ def check(ctx, prop):
 
 
 def self_test(ctx, runs, cfg_text):
-    run = next((r for r in runs if any(x["ev"] == "Request" and not x["served"] and x["cookie"] == "forged" for x in r)), None)
+    run = next((r for r in runs if any(x["ev"] == "Request" and not x["served"] and x["cookies"] == ["forged"] for x in r)), None)
     if run is None:
         raise Broken("binding self-test: no rejected forged-cookie request in any trace")
     bad = copy.deepcopy(run)
-    tgt = [r for r in bad if r["ev"] == "Request" and not r["served"] and r["cookie"] == "forged"][-1]
+    tgt = [r for r in bad if r["ev"] == "Request" and not r["served"] and r["cookies"] == ["forged"]][-1]
     tgt["served"] = True
     _, viol, _ = layers.observe(ctx, DIR, "Obs_ConsoleAuth.tla", "Obs_ConsoleAuth.cfg", bad, name="selfO")
     if not any(v[1] == "C38_SessionRequired" for v in viol):
